@@ -552,7 +552,7 @@ package objects
 //@ func (a *Allocation) MarkPreempted() (err error)
 //@   props C07 C04
 //@   mode nopanic=off
-//@   requires inv_excl(a)
+//@   holds inv_excl(a)
 //@   assigns a.preempted
 //@   ensures inv_excl(a)
 //@   ensures[marked] err == nil ==> !a.released && a.preempted
@@ -561,14 +561,14 @@ package objects
 //@ func (a *Allocation) MarkUnPreempted()
 //@   props C07
 //@   mode nopanic=off
-//@   requires inv_excl(a)
+//@   holds inv_excl(a)
 //@   assigns a.preempted
 //@   ensures inv_excl(a) && !a.preempted
 
 //@ func (a *Allocation) SetReleased(released bool) (err error)
 //@   props C07 C04 C06
 //@   mode nopanic=off
-//@   requires inv_excl(a)
+//@   holds inv_excl(a)
 //@   assigns a.released
 //@   ensures inv_excl(a)
 //@   ensures err == nil ==> a.released == released
@@ -651,9 +651,20 @@ package objects
 //@   assigns nothing
 
 // an ask that becomes allocated leaves the pending totals of the application and of every queue on its path by exactly its size
+//@ func (sa *Application) updateAskMaxPriority()
+//@   props C03
+//@   trusted "frame only: priority bookkeeping (askMaxPriority, queue priority caches); no ledger is written"
+//@   assigns sa.askMaxPriority, all Queue.currentPriority, all Queue.appPriorities[*], all Queue.childPriorities[*]
+
+//@ func (sq *Queue) UpdateApplicationPriority(applicationID string, priority int32)
+//@   props C03
+//@   trusted "frame only: priority bookkeeping (queue priority caches); no ledger is written"
+//@   assigns all Queue.currentPriority, all Queue.appPriorities[*], all Queue.childPriorities[*]
+
 //@ func (sa *Application) allocateAsk(ask *Allocation) (delta *resources.Resource, err error)
 //@   props C03
 //@   mode nopanic=off
+//@   assigns ask.allocated, sa.pending, sa.askMaxPriority, all Queue.pending, all Queue.currentPriority, all Queue.appPriorities[*], all Queue.childPriorities[*]
 //@   ensures[pending] err == nil ==> (forall t Key :: rv(sa.pending, t) == clamp64(old(rv(sa.pending, t)) - rv(ask.allocatedResource, t)))
 //@   ensures[queue] err == nil ==> (forall q *Queue, t Key :: anc(sa.queue, q) ==> rv(q.pending, t) == (has(ask.allocatedResource, t) ? posv(clamp64(old(rv(q.pending, t)) - rv(ask.allocatedResource, t))) : old(rv(q.pending, t))))
 //@   ensures[marked] err == nil ==> ask.allocated && !old(ask.allocated) && delta == ask.allocatedResource
@@ -662,6 +673,7 @@ package objects
 //@ func (sa *Application) deallocateAsk(ask *Allocation) (delta *resources.Resource, err error)
 //@   props C03
 //@   mode nopanic=off
+//@   assigns ask.allocated, sa.pending, sa.askMaxPriority, all Queue.pending, all Queue.currentPriority, all Queue.appPriorities[*], all Queue.childPriorities[*]
 //@   ensures[pending] err == nil ==> (forall t Key :: rv(sa.pending, t) == clamp64(old(rv(sa.pending, t)) + rv(ask.allocatedResource, t)))
 //@   ensures[queue] err == nil ==> (forall q *Queue, t Key :: anc(sa.queue, q) ==> rv(q.pending, t) == clamp64(old(rv(q.pending, t)) + rv(ask.allocatedResource, t)))
 //@   ensures[marked] err == nil ==> !ask.allocated && old(ask.allocated) && delta == ask.allocatedResource
@@ -742,3 +754,41 @@ package objects
 //@   at[user] call objects.Application.tryNodes#1: assert arg1 == request && fitsHR(userHeadroom, request.allocatedResource) && fitsHR(headRoom, request.allocatedResource) && !request.allocated
 //@   at[user] call objects.Application.tryPreemption#1: assert arg4 == request && fitsHR(userHeadroom, request.allocatedResource)
 //@   at[user] call objects.Application.tryPreemption#2: assert arg4 == request && fitsHR(userHeadroom, request.allocatedResource) && fitsHR(headRoom, request.allocatedResource)
+
+// ================================================================ C06: placeholder swap guards
+
+// a real ask may take the place of a placeholder only if it is a non-placeholder ask of a task group, the placeholder
+// belongs to the same task group and the ask is no larger than the placeholder on every resource type
+//@ spec swapOK(ph *Allocation, req *Allocation) bool = !req.placeholder && req.taskGroupName != "" && req.taskGroupName == ph.taskGroupName && (forall t Key :: rv(ph.allocatedResource, t) >= rv(req.allocatedResource, t))
+
+//@ func (sa *Application) tryPlaceholderAllocate(nodeIterator func() NodeIterator, getNodeFn func(string) *Node) (res *AllocationResult)
+//@   props C06
+//@   sweep
+//@   mode nopanic=off
+//@   loop 1: invariant phFit != nil || reqFit != nil ==> phFit != nil && reqFit != nil && swapOK(phFit, reqFit)
+//@   loop 2: invariant phFit != nil || reqFit != nil ==> phFit != nil && reqFit != nil && swapOK(phFit, reqFit)
+//@   at[samenode] call objects.Application.allocateAsk#1: assert arg1 == request && swapOK(ph, request) && !ph.released && !ph.preempted
+//@   at[link] call objects.Allocation.SetRelease#1: assert arg0 == request && arg1 == ph
+//@   at[linkback] call objects.Allocation.SetRelease#2: assert arg0 == ph && arg1 == request
+//@   at[release] call objects.Allocation.SetReleased#2: assert arg0 == ph && arg1
+//@   at[crossnode] call objects.NodeIterator.ForEachNode#1: assert phFit != nil && reqFit != nil && swapOK(phFit, reqFit) && resKey == reqFit.allocationKey
+//@   at[larger] call objects.Allocation.SetReleased#1: assert arg0 == ph && arg1 && (exists t Key :: rv(ph.allocatedResource, t) < rv(request.allocatedResource, t))
+
+// the swap onto another node: same gate as every scheduler bind (C01) and the same swap guard, established where the
+// closure is handed to the iterator (obligation [crossnode] above)
+//@ func (sa *Application) tryPlaceholderAllocate$calls(objects.Node.TryAddAllocation)(node *Node) (cont bool)
+//@   props C06 C01
+//@   sweep
+//@   mode nopanic=off
+//@   holds phFit != nil && reqFit != nil && swapOK(phFit, reqFit) && resKey == reqFit.allocationKey
+//@   holds inv(node)
+//@   at[schedulable] call objects.Node.TryAddAllocation#1: assert arg0 == node && node.schedulable && arg1 == reqFit
+//@   at[prechecked] call objects.Node.TryAddAllocation#1: assert (forall t Key :: has(reqFit.allocatedResource, t) ==> rv(reqFit.allocatedResource, t) <= posv(rv(node.availableResource, t))) && (exists t Key :: rv(reqFit.allocatedResource, t) > 0)
+//@   at[reservedfor] call objects.Node.TryAddAllocation#1: assert len(node.reservations) == 0 || (reqFit.allocationKey != "" && node.reservations[reqFit.allocationKey] != nil)
+//@   at[predicate] call objects.Node.TryAddAllocation#1: assert predOK(reqFit.allocationKey, node.NodeID)
+//@   at[guard] call objects.Application.allocateAsk#1: assert arg1 == reqFit && swapOK(phFit, reqFit)
+//@   at[link] call objects.Allocation.SetRelease#1: assert arg0 == reqFit && arg1 == phFit
+//@   at[linkback] call objects.Allocation.SetRelease#2: assert arg0 == phFit && arg1 == reqFit
+//@   at[release] call objects.Allocation.SetReleased#1: assert arg0 == phFit && arg1
+//@   at[unwind] call objects.Node.RemoveAllocation#1 after: assert forall t Key :: rv(node.availableResource, t) == old(rv(node.availableResource, t)) && rv(node.allocatedResource, t) == old(rv(node.allocatedResource, t))
+//@   at[revert] call objects.Node.RemoveAllocation#2 after: assert forall t Key :: rv(node.availableResource, t) == old(rv(node.availableResource, t)) && rv(node.allocatedResource, t) == old(rv(node.allocatedResource, t))
